@@ -48,6 +48,13 @@ def piersonMoskowitzSpectrum( w, Uw, alpha=0.0081, beta=0.74, g=9.81 ):
     if not isinstance( Uw, numbers.Real ):
         raise ValueError( "Uw should be a scalar" )
 
+    # any real scalar ( Python or numpy, integer types included ) is taken as a float
+    w = float( w )
+    Uw = float( Uw )
+    alpha = float( alpha )
+    beta = float( beta )
+    g = float( g )
+
     rst = alpha * g * g / np.power( w, 5 ) * \
         np.exp( -beta * np.power( ( g / Uw ) / w, 4 ) )
     return rst
@@ -96,6 +103,14 @@ def jonswapSpectrum( w, wp, alpha=0.0081, beta=1.25, gamma=3.3, g=9.81 ):
         raise ValueError( "w should be a scalar" )
     if not isinstance( wp, numbers.Real ):
         raise ValueError( "wp should be a scalar" )
+
+    # any real scalar ( Python or numpy, integer types included ) is taken as a float
+    w = float( w )
+    wp = float( wp )
+    alpha = float( alpha )
+    beta = float( beta )
+    gamma = float( gamma )
+    g = float( g )
 
     sigma = 0.07 
     if ( w > wp ):
@@ -146,6 +161,11 @@ def isscSpectrum( w, wp, Hs ):
     if not isinstance( Hs, numbers.Real ):
         raise ValueError( "Hs should be a scalar" )
     
+    # any real scalar ( Python or numpy, integer types included ) is taken as a float
+    w = float( w )
+    wp = float( wp )
+    Hs = float( Hs )
+
     wwp4 = np.power( wp / w, 4 )
     rst = 5 / 16 * Hs * Hs * wwp4 / w * np.exp( -1.25 * wwp4 )
     return rst
@@ -203,6 +223,12 @@ def gaussianSwellSpectrum( w, wp, Hs, sigma ):
     if not isinstance( sigma, numbers.Real ):
         raise ValueError( "sigma should be a scalar" )
     
+    # any real scalar ( Python or numpy, integer types included ) is taken as a float
+    w = float( w )
+    wp = float( wp )
+    Hs = float( Hs )
+    sigma = float( sigma )
+
     twoPi = 2 * np.pi
     pexp = np.power( ( w - wp ) / ( twoPi * sigma ), 2 ) / 2
     rst = Hs * Hs / ( 16 * sigma * np.power( twoPi, 1.5 ) ) * np.exp( -pexp )
@@ -277,6 +303,15 @@ def ochiHubbleSpectrum( w, wp1, wp2, Hs1, Hs2, lambda1, lambda2 ):
     if wp1 >= wp2:
         raise ValueError( "wp1 must be less than wp2" )
     
+    # any real scalar ( Python or numpy, integer types included ) is taken as a float
+    w = float( w )
+    wp1 = float( wp1 )
+    wp2 = float( wp2 )
+    Hs1 = float( Hs1 )
+    Hs2 = float( Hs2 )
+    lambda1 = float( lambda1 )
+    lambda2 = float( lambda2 )
+
     def oneTerm( w, wp, Hs, lambdaVal ):
         fourLambda = ( 4 * lambdaVal + 1 ) / 4
         firstPart = np.power( fourLambda * np.power( wp, 4 ), lambdaVal ) / \
